@@ -29,8 +29,29 @@ pub fn base32hex_encode(xs: &mut Xstate) -> Xresult {
     base32_encode2(xs, base32::Alphabet::Crockford)
 }
 
+// The base32 crate reads '=' as the digit 0 wherever it stands: padding is valid only
+// as a trailing run that fills the last group of eight, and only where the alphabet has it.
+fn base32_padding_ok(s: &str, padded: bool) -> bool {
+    let body = s.trim_end_matches('=');
+    if body.contains('=') {
+        return false;
+    }
+    if padded {
+        s.len() % 8 == 0 && s.len() - body.len() < 8
+    } else {
+        body.len() == s.len()
+    }
+}
+
 pub fn base32_decode2(xs: &mut Xstate, alphabet: base32::Alphabet) -> Xresult1<Xbitstr> {
     let s = xs.pop_data()?.to_xstr()?;
+    let padded = match alphabet {
+        base32::Alphabet::RFC4648 { padding } => padding,
+        base32::Alphabet::Crockford => false,
+    };
+    if !base32_padding_ok(&s, padded) {
+        return Err(Xerr::ErrorMsg(xeh_xstr!("base32 decode error")));
+    }
     let res = base32::decode(alphabet, &s)
         .ok_or_else(|| Xerr::ErrorMsg(xeh_xstr!("base32 decode error")))?;
    Ok(Xbitstr::from(res))
@@ -87,6 +108,12 @@ pub fn zero85_encode(xs: &mut Xstate) -> Xresult {
 
 pub fn zero85_decode_res(xs: &mut Xstate) -> Xresult1<Xbitstr> {
     let s = xs.pop_data()?.to_xstr()?;
+    // the last group may start with one to three '#' (padding of a short tail); the z85
+    // crate miscounts when there are more
+    let tail_pad = s.as_bytes().rchunks(5).next().map_or(0, |t| t.iter().take_while(|c| **c == b'#').count());
+    if tail_pad > 3 {
+        return Err(Xerr::ErrorMsg(xeh_xstr!("zero85 decode error")));
+    }
     let res = z85::decode(&s)
         .map_err(|_| Xerr::ErrorMsg(xeh_xstr!("zero85 decode error")))?;
     Ok(Xbitstr::from(res))
